@@ -52,14 +52,18 @@ def cases(ctx, plan):
 FOREIGN_NODE_KEYS = ["name", "label", "id", "type", "color", "weight", "pos", "index", "original_label", "atom", "value"]
 
 
-def add_foreign_attributes(ctx, g, rng):
-    """Caller-side annotations under everyday names on atoms, bonds and the graph (atom names, colours, weights, ...)."""
+def add_foreign_attributes(ctx, g, rng, any_value=False):
+    """Caller-side annotations under everyday names on atoms, bonds and the graph (atom names, colours, ...). any_value=True (C12 only, whose
+    statement is about EVERY attribute being kept) also uses None / tuple values and the edge key 'weight', which graph libraries give a meaning."""
     keys = rng.sample(FOREIGN_NODE_KEYS, rng.randint(1, 3))
+    values = (lambda v, d: [f"{d.get('element_symbol', 'X')}{v}", v + 100, (v, "t"), 1.5, None, 0, "", False]) if any_value else \
+             (lambda v, d: [f"{d.get('element_symbol', 'X')}{v}", v + 100, 1.5, 0, "", False])
     for v, d in g.nodes(data=True):
         for k in keys:
-            d[k] = rng.choice([f"{d.get('element_symbol', 'X')}{v}", v + 100, (v, "t"), 1.5, None, 0, "", False])
+            d[k] = rng.choice(values(v, d))
     for u, v, d in g.edges(data=True):
-        d["weight"] = rng.choice([1, 2.5, None, 0])
+        if any_value:
+            d["weight"] = rng.choice([1, 2.5, None, 0])
         d["name"] = f"b{min(u, v)}_{max(u, v)}"
     g.graph["name"] = "annotated molecule"
     ctx.count("cov_foreign_attributes_with_common_names")
